@@ -98,6 +98,7 @@ TypeCommand TasgridWrapper::hasCommand(std::string const &s){
             {"-getdiffweights", command_getdiffweights}, {"-gd",   command_getdiffweights},
             {"-getpoints",  command_getpoints},  {"-gp", command_getpoints},
             {"-getneeded",  command_getneeded},  {"-gn", command_getneeded},
+            {"-getneededpoints", command_getneeded},
             {"-loadvalues", command_loadvalues}, {"-l",  command_loadvalues},
             {"-evaluate",   command_evaluate},   {"-e",  command_evaluate},
             {"-integrate",  command_integrate},  {"-i",  command_integrate},
